@@ -2,9 +2,13 @@
 
 Space: constraint-bearing scenes of C05 (every 3-body tree, joint pattern, feature sets of <=k constraint features) and
 dedicated contact scenes (sphere sliding / resting on a tilted plane, capsule with condim 6, stacks of 2 and 3 boxes,
-limited chain with friction loss and tendon limits, mixed pile with a connect) x solver {Newton, CG} x cone {pyramidal,
-elliptic} x jacobian {dense, sparse} x warmstart {disabled, zero, deliberately bad} x a batch of 3 worlds holding
-different states (design state, second state, design state with 1% velocities).
+limited chain with friction loss and tendon limits, mixed pile with a connect) and model-SIZE scenes (mc/refs/sizescenes.py:
+a model of exactly nv dofs on each side of every nv-dependent kernel dispatch of the solver -- 32|33 one-tile vs blocked
+Cholesky, 50|51 fused vs separately accumulated/reused jv and Jaref, 60|61 largest dense vs sparse-only, and the nv_pad steps
+47|48|49, 65 -- as a row of k free boxes (every third triple with stiff contacts; one moving and two pressed states) and as
+serial hinge arms with limits, friction loss, joint equalities and a tendon limit)
+x solver {Newton, CG} x cone {pyramidal, elliptic} x jacobian {dense, sparse} x warmstart {disabled, zero, deliberately bad}
+x a batch of 3 worlds holding different states (design state, second state, design state with 1% velocities).
 Oracles: O1 float64 optimality certificate of MJWarp's own problem (mc/refs/cost.py), independent of any iterate;
 O2 qacc vs mj_forward where both engines assembled the same rows; O3 efc.force / efc.state / qfrc_constraint equal the
 float64 row law evaluated at the reported qacc.
@@ -15,17 +19,19 @@ import numpy as np
 from mc import space, util
 from mc.refs import conscenes as cs
 from mc.refs import cost
+from mc.refs import sizescenes as ss
 
 ID = "C06"
 LEVEL = "exploration"
 RULE = (
-  "enumerate scenes (trees x joint pattern x feature sets, dedicated contact scenes); each scenario runs 2 solvers x 2 cones x "
-  "2 jacobians x 3 warmstart modes on a 3-world batch; non-trivial = >=1 world has a constraint row carrying non-zero force "
+  "enumerate scenes (trees x joint pattern x feature sets, dedicated contact scenes, size scenes {row of boxes, hinge arms} x nv); "
+  "each scenario runs 2 solvers x 2 cones x 2 jacobians (dense only where put_model accepts it, nv <= 60) x 3 warmstart modes on a "
+  "3-world batch (a size scene is split into one scenario per solver x cone); non-trivial = >=1 world has a constraint row carrying non-zero force "
   "and qacc != qacc_smooth; distinct = canonical hash of the spec"
 )
 BOUNDS = {
-  "quick": "feature sets k<=1 (all options) on all 5 trees, k=2 (core options) on one tree each (cycling), joint pattern alternating; 7 dedicated scenes x 2 variants",
-  "thorough": "k<=1 on all trees x both patterns, k=2 (all options) on all trees (pattern alternating), k=3 (core) cycling trees; 7 dedicated scenes x 4 variants",
+  "quick": "feature sets k<=1 (all options) on all 5 trees, k=2 (core options) on one tree each (cycling), joint pattern alternating; 7 dedicated scenes x 2 variants; size scenes: 2 kinds x nv in {32,33,50,51,60,61} x the seed's variant",
+  "thorough": "k<=1 on all trees x both patterns, k=2 (all options) on all trees (pattern alternating), k=3 (core) cycling trees; 7 dedicated scenes x 4 variants; size scenes: 2 kinds x nv in {32,33,47,48,49,50,51,60,61,65} x 2 variants",
 }
 ASSUMPTIONS = [
   "certificate O1, stage 1: r_i = max(|g_i| - 32*eps32*(sum of magnitudes of the terms added into g_i), 0) is the part of the float64 gradient that float32 rounding cannot explain; pass if ||r||/(meaninertia*nv) <= K*tol or r'M^-1 r/2/(meaninertia*nv) <= K*tol (the solver's own two stopping quantities), K=20, tol = the tolerance MJWarp uses (max(opt.tolerance,1e-6))",
@@ -33,12 +39,14 @@ ASSUMPTIONS = [
   "CG only: if stage 2 fails but MuJoCo's own CG (float64, tolerance 1e-8) is at least as far from the optimum of its own problem, the world passes (CG stops on per-iteration improvement, which does not bound the remaining gap on ill-conditioned cones); counted in certificate_cg_as_converged_as_mujoco",
   "if the ITERATIONS overflow bit is set the certificate is replaced by cost(qacc) <= cost(MuJoCo's qacc, same solver and iteration limit) + the same allowance (skipped if MuJoCo assembled a different number of rows)",
   "O2 allows 2e-3*(1+max|qacc_ref|) + sqrt(2*allowance*(M^-1)_ii) per dof (what a point within the allowed suboptimality may deviate by strong convexity) and is applied only where MuJoCo's rows have the same count as MJWarp's, MuJoCo raised no warning and MuJoCo's own qacc passes the certificate on MuJoCo's own problem",
-  "O3: force within 2e-4*(1+max|force|) + 64*eps32*D*(|J||qacc|+|aref|) per row (MJWarp carries J*qacc-aref in float32 through the iterations); states compared only for rows farther than that from a zone boundary",
+  "O3: force within 2e-4*(1+max|force|) + 64*eps32*D*(|J||qacc|+|aref|) per row (MJWarp carries J*qacc-aref in float32 through the iterations); states compared only for rows farther than that from a zone boundary (for an elliptic contact: farther than the coarsest of its rows allows, mixed by 1+1/mu as for its forces, because the zone is decided by all rows of the contact together)",
+  "O3 qfrc_constraint = J'efc.force within 2e-4*(1+magnitudes) + 32*eps32*|J|'(D*(|J||qacc|+|aref|)): the Newton/pyramidal path recovers qfrc_constraint from the gradient (M*qacc - qfrc_smooth - grad), so it differs from J'force by |J|' times the float32 uncertainty of the forces themselves (half of what O3 grants per row); measured on the unchanged tree over the size scenes, seeds 0-3: at most 6.8*eps32 of that quantity (stiff contacts, D up to 1.6e4, where rounding qacc to float32 alone moves the true gradient by more than the observed difference); negligible next to the first term on the soft scenes",
   "opt.iterations=100 (MuJoCo default), opt.tolerance default 1e-8 (clamped to 1e-6 by put_model); CPU backend",
 ]
 BUDGET = {"quick": 900, "thorough": 4000}
 
 K = 20.0
+QFLOOR = 32.0
 EPS32 = 1.1920929e-07
 DISABLE_WARMSTART = 1 << 8  # mjDSBL_WARMSTART (checked in worker_init)
 OVERFLOW_ITER = None
@@ -92,6 +100,17 @@ def scenarios(tier, seed):
       add(tree_scn(fs, fi, fi % 2))
   out = [s for s in out if s["fam"] == "dedicated" or s["feats"]]
   out.sort(key=lambda s: (0 if s["fam"] == "tree" else 1, len(s.get("feats", []))))
+  # model SIZE: one model of an exact nv on each side of every nv-dependent dispatch of the solver (mc/refs/sizescenes.py),
+  # in both structural kinds; one scenario per (solver, cone) so that no single scenario dominates the wall time.
+  # quick: the sizes around the kernel-dispatch thresholds, variant of the seed; thorough: all sizes, two variants
+  for nv, _why, in_quick in ss.SIZES:
+    if tier == "quick" and not in_quick:
+      continue
+    for kind in ss.KINDS:
+      for dv in range(1 if tier == "quick" else 2):
+        for solver in (2, 1):
+          for cone in (0, 1):
+            add(dict(fam="size", kind=kind, nv=nv, variant=(variant + dv) % 4, solver=solver, cone=cone))
   return out
 
 
@@ -115,6 +134,13 @@ def build(scn):
     q2 = list(qpos)
     v2 = [-0.5 * x + 0.1 for x in qvel]
     states = [(qpos, qvel), (q2, v2), (qpos, [0.01 * x for x in qvel])]
+    return mjm, dict(states=states, eq_off=[], kw=kw)
+  if scn["fam"] == "size":
+    xml, states, kw = ss.build(scn["kind"], scn["nv"], scn["variant"])
+    mjm, err = util.try_load(xml)
+    if mjm is None:
+      return None, err
+    assert mjm.nv == scn["nv"], (mjm.nv, scn["nv"])
     return mjm, dict(states=states, eq_off=[], kw=kw)
   mjm, info = cs.build(scn)
   if mjm is None:
@@ -204,6 +230,10 @@ def check_world(c, pre, mjm, m, d, w, overflow, mjd, tagkey, mjd_any=None, mjd_r
       )
     bd = P.boundary_distance(ev["jar"])
     jtol = 64 * EPS32 * jmag + 1e-9
+    # the zone of an elliptic contact is decided by all of its rows together (boundary_distance is one number per contact), so
+    # its resolution is that of the contact's coarsest row, mixed as in ftol above -- not that of each (small) friction row
+    for r_, fri, mu in P.cones:
+      jtol[r_] = np.max(jtol[r_]) * (1 + 1 / max(mu, 1e-3))
     far = bd > 4 * jtol
     sbad = np.nonzero(far & (rows["state"] != ev["state"]))[0]
     c.nchecked += 1
@@ -218,7 +248,22 @@ def check_world(c, pre, mjm, m, d, w, overflow, mjd, tagkey, mjd_any=None, mjd_r
   # scale: the Newton/pyramidal path recovers qfrc_constraint as M*qacc - qfrc_smooth - grad, so those magnitudes count too
   mag = (np.abs(P.J.T) @ np.abs(rows["force"])) if nefc else np.zeros(P.nv)
   mag = np.maximum(mag, np.maximum(np.abs(P.M) @ np.abs(qacc), np.abs(P.M) @ np.abs(P.qacc_smooth)))
-  c.close(f"{pre}qfrc_constraint = J'force", qfc, want, "f32dyn", scale=1 + float(np.max(mag, initial=0.0)), vkey=f"qfrc_constraint:{tagkey}")
+  # float32 floor: MJWarp carries Jaref = J*qacc - aref in float32, so each reported force is uncertain by at least
+  # D*eps32*(|J||qacc|+|aref|) (O3 grants 64x that per row); the Newton/pyramidal path recovers qfrc_constraint from the
+  # gradient, i.e. from M*qacc and qfrc_smooth, so it differs from J'force by |J|' times that uncertainty.  QFLOOR eps32 is
+  # granted (calibrated on the unchanged tree over the size scenes, seeds 0-3: max observed excess 6.8 eps32); for the
+  # ordinary (soft) scenes this term is far below the f32dyn term.
+  qtol = 2e-4 * (1 + float(np.max(mag, initial=0.0)))
+  qfloor = (np.abs(P.J.T) @ (P.D * (np.abs(P.J) @ np.abs(qacc) + np.abs(P.aref)))) * EPS32 if nefc else np.zeros(P.nv)
+  qerr = np.abs(qfc - want)
+  c.nchecked += 1
+  worstQ = float(np.max((qerr - qtol) / np.maximum(qfloor, 1e-300), initial=0.0)) if nefc else 0.0
+  if not np.all(np.isfinite(qfc)) or np.any(qerr > qtol + QFLOOR * qfloor):
+    i = int(np.argmax(qerr - qtol - QFLOOR * qfloor))
+    c.fail(
+      f"qfrc_constraint:{tagkey}",
+      f"{pre}qfrc_constraint = J'force: |got-want|={qerr[i]:.3g} > {qtol + QFLOOR * qfloor[i]:.3g} (= f32dyn {qtol:.3g} + {QFLOOR:g} eps32 |J|'D(|J||qacc|+|aref|) {QFLOOR * qfloor[i]:.3g}) at ({i},) got={qfc[i]:.6g} want={want[i]:.6g}",
+    )
   # O2
   if mjd is not None:
     # class solver plus what the allowed suboptimality itself permits: a point whose cost is within `allow` of the minimum
@@ -231,7 +276,7 @@ def check_world(c, pre, mjm, m, d, w, overflow, mjd, tagkey, mjd_any=None, mjd_r
       i = int(np.argmax(err / qallow))
       c.fail(f"qacc_vs_mujoco:{tagkey}", f"{pre}qacc[{i}]={qacc[i]:.7g} vs mj_forward {mjd.qacc[i]:.7g} (allowed {qallow[i]:.3g})")
   active = nefc > 0 and np.any(rows["force"] != 0) and np.max(np.abs(qacc - P.qacc_smooth)) > 1e-6
-  return bool(active), dict(G=Gx, S=gap / max(allow, 1e-300))
+  return bool(active), dict(G=Gx, S=gap / max(allow, 1e-300), Q=worstQ)
 
 
 PATHS = {"stage1": 0, "stage2": 0, "cg_as_converged_as_mujoco": 0, "itercap": 0}
@@ -275,13 +320,15 @@ def execute(scn):
   for k in PATHS:
     PATHS[k] = 0
   nactive = nconfig = nref = 0
-  worstG = worstS = 0.0
+  worstG = worstS = worstQ = 0.0
   base_flags = int(mjm.opt.disableflags)
-  for cone in (0, 1):
+  for cone in (0, 1) if "cone" not in scn else (scn["cone"],):
     mjm.opt.cone = cone
     for jac in (0, 1):
+      if jac == 0 and mjm.nv > ss.DENSE_MAX:
+        continue  # put_model refuses the dense Jacobian above nv = 60 (documented limit, not part of the property)
       mjm.opt.jacobian = jac
-      for solver in (2, 1):
+      for solver in (2, 1) if "solver" not in scn else (scn["solver"],):
         mjm.opt.solver = solver
         mjm.opt.disableflags = base_flags
         refs = reference(mjm, states, info["eq_off"])
@@ -315,11 +362,11 @@ def execute(scn):
             nref += usable
             act, inf = check_world(c, pre, mjm, m, d, w, overflow, mjd if usable else None, tagkey, mjd_any=mjd if okref else None, mjd_raw=mjd if util.mj_warnings(mjd) == 0 and np.all(np.isfinite(mjd.qacc)) else None)
             nactive += act
-            worstG, worstS = max(worstG, inf.get("G", 0.0)), max(worstS, inf.get("S", 0.0))
+            worstG, worstS, worstQ = max(worstG, inf.get("G", 0.0)), max(worstS, inf.get("S", 0.0)), max(worstQ, inf.get("Q", 0.0))
   mjm.opt.disableflags = base_flags
   return c.result(
     nontrivial=nactive > 0,
     key=util.sha(scn),
-    info=dict(nv=int(mjm.nv), active_worlds=nactive, configs=nconfig, worstG=float(f"{worstG:.3g}"), worstS=float(f"{worstS:.3g}"), checked=c.nchecked),
+    info=dict(nv=int(mjm.nv), active_worlds=nactive, configs=nconfig, worstG=float(f"{worstG:.3g}"), worstS=float(f"{worstS:.3g}"), worstQ=float(f"{worstQ:.3g}"), checked=c.nchecked),
     counts=dict(extra_evaluations=nconfig * 3, compared_to_mujoco=nref, **{"certificate_" + k: v for k, v in PATHS.items()}),
   )
